@@ -201,8 +201,8 @@ class Index(object):
 
     def _acc(self, drv):
         for e in ins.EV[self.mark:]:
-            if e["k"] == "adjust" and e["node"] is drv.root and e["flow"]:
-                self.F += e["amount"]
+            if e["k"] == "adjust" and e["node"] is drv.root and e["flow"] and e.get("ctx") is None:
+                self.F += e["amount"]     # external: issued by the driver, not by bt while booking a trade or a transfer
         self.mark = len(ins.EV)
 
     def _check(self, drv, where):
@@ -265,9 +265,9 @@ class Ledger(object):
         self.direct = {}   # (date index, node full_name, 'flow'|'nonflow') -> amount
 
     def after_op(self, drv, op, info):
-        if op["op"] == "adjust":
-            k = (drv.di, op["node"], "flow" if op["flow"] else "nonflow")
-            self.direct[k] = self.direct.get(k, 0.0) + op["amount"]
+        for node_path, is_flow, amount in info.get("direct", []):
+            k = (drv.di, node_path, "flow" if is_flow else "nonflow")
+            self.direct[k] = self.direct.get(k, 0.0) + amount
         # exactly-once: each trade is matched to exactly one non-flow adjust on the security's own parent
         evs = [e for e in info["events"] if e["root"] is drv.root]
         kind = drv.spec["comm"]
